@@ -176,7 +176,7 @@ def case_aa(g):
 
 def scalar_target(g):
     r = g.rng
-    return r.choice(["x", "y", "z", "r(2)", f"r({g.sym(r.randint(1, 4))})", "m(2,3)", f"q({g.sym(1)},{g.sym(3)})"])
+    return r.choice(["x", "y", "z", "r(2)", r.choice(["r(k)", "r(n-1)", "r(3)"]), "m(2,3)", r.choice(["q(1,3)", "q(k,n)"])])
 
 
 def case_intr(g):
@@ -290,7 +290,7 @@ def case_misc(g):
     r = g.rng
     if r.random() < 0.5:
         arr = r.choice(V10)
-        i = g.sym(r.randint(2, 6))
+        i = g.sym(r.randint(3, 6))
         other = r.choice(V10)
         return {"kind": "misc", "flavour": "access2loop", "stmts": [f"{arr}({i}) = {other}({i}) * 2.0 + {r.choice(R.SCALARS)}"],
                 "trans": "ArrayAccess2LoopTrans", "target": ["index", 0]}
@@ -454,10 +454,13 @@ def tolerated(err):
     return isinstance(err, TOLERATED) or type(err).__name__ in TOLERATED_NAMES
 
 
-def psy_batch(batch, params):
+def psy_batch(batch, params, dropped=None):
     """apply the real transformations of all cases of a batch inside ONE program (last block first,
-    so that earlier positions stay valid).  Returns (entries, src, out_src) or None if the batch
-    has to be evaluated case by case."""
+    so that earlier positions stay valid).  A case on which PSyclone crashes (not a TransformationError)
+    is dropped and the batch is redone without it.  Returns (entries, src, out_src) or None if the
+    batch has to be evaluated case by case."""
+    dropped = dropped if dropped is not None else []
+    j = None
     try:
         src, n_init, starts = R.program_multi(params, [c["stmts"] for c in batch])
         psyir, routine = R.parse(src)
@@ -466,10 +469,14 @@ def psy_batch(batch, params):
             case = batch[j]
             ap = R.apply_at(psyir, routine, starts[j] + n_init + len(case["stmts"]) - 1, case["trans"], case["target"])
             entries[j] = make_entry(case, params, ap)
+        j = None
         return entries, src, R.write(psyir)
     except Exception as err:
         if not tolerated(err):
             raise
+        if j is not None and len(dropped) < 4:
+            dropped.append((batch[j], type(err).__name__))
+            return psy_batch(batch[:j] + batch[j + 1:], params, dropped)
         return None
 
 
@@ -538,7 +545,11 @@ def run(chk):
     pending = []       # (entries, src, out_src)
     singles = []       # (case, params)
     for batch, params in batches:
-        res = psy_batch(batch, params)
+        drops = []
+        res = psy_batch(batch, params, drops)
+        for c, why in drops:
+            key = c["kind"] + ":" + c["flavour"] + ":psyclone-crash:" + why
+            dist[key] = dist.get(key, 0) + 1
         if res is None:
             singles += [(c, params) for c in batch]
             dist["batches not transformable as a whole"] = dist.get("batches not transformable as a whole", 0) + 1
